@@ -1,9 +1,10 @@
-\* C03 quick (deep): 1 thread; one new() instance; keys a,b with property maps {a:1},{a:2,b:1}; kinds push/root/disabled/current;
+\* C03 quick (deep): 1 thread; one default() instance; keys a,b with property maps {a:1},{a:2,b:1}; kinds push/root/disabled/current;
 \* guard form (frames re-entered); <= 3 frames, 1 task, nesting <= 3, panic unwinding; every transition replayed.
 SPECIFICATION Spec
 CONSTANTS
     NThreads = 1
     StoreOf <- MC_Store1
+    InstKind <- MC_KindD1
     NKeys = 2
     PropChoices <- MC_Props2
     Kinds <- MC_AllKinds
